@@ -25,7 +25,8 @@ FLOORS = {'quick': {'__nontrivial__': 400, 'target:sqlite': 800, 'kind:select': 
 N = {'quick': 300, 'thorough': 4000}
 TARGETS = ['sqlite', 'sqlite', 'mysql', 'postgresql']
 CFG = model.Cfg(places={}, always_alias=True, order_by_source=True)
-CFG2 = model.Cfg(places={}, always_alias=False, order_by_source=True)   # un-aliased tables (inner ones may shadow outer ones)
+CFG2 = model.Cfg(places={}, always_alias=False, order_by_source=True)
+CFG3 = model.Cfg(places={}, always_alias=True, order_by_source=True, concat_arith=True)   # un-aliased tables (inner ones may shadow outer ones)
 
 
 def prepare(tier):
@@ -185,8 +186,15 @@ def cases(draw):
     if draw(st.integers(0, 4)) == 0:
         c = draw(dml())
     else:
-        c = draw(model.queries(CFG if draw(st.booleans()) else CFG2))
+        which = draw(st.integers(0, 4))
+        c = draw(model.queries(CFG3 if which == 0 else CFG if which < 3 else CFG2))
         c['kind'] = 'select'
+        if which == 0:
+            # `||` has its own rank in every engine (tightest in SQLite, below arithmetic in PostgreSQL, OR in MySQL):
+            #  statements that mix it with arithmetic are outside the common subset, judged for the sqlite target only
+            c['data'] = draw(model.table_data())
+            c['target'] = 'sqlite'
+            return c
     c['data'] = draw(model.table_data())
     c['target'] = draw(st.sampled_from(TARGETS))
     return c
